@@ -207,7 +207,7 @@ def validate(ctx, pid, traces, meta, name, report=True):
                 if report:
                     ctx.traces += 1
             elif report:
-                key = f'{pid}/c/poisson_cv/last-fold-only' if inp['method'] == 'poisson_cv' \
+                key = f'{pid}/c/value/poisson_cv/trace' if inp['method'] == 'poisson_cv' \
                     else f"{pid}/a/value/poisson/{inp['mode']}/trace"
                 ctx.violation(key, 'recorded poisson value differs from the trusted log step applied to the exact '
                               'rates TLC computed for the logged input', {'in': inp, 'flavour': fl, 'detail': detail})
